@@ -17,13 +17,18 @@ import BufModel.Path
 
   Parts:
     (i)   image-level path filtering  `imageWithOnlyPaths`
-    (ii)  module-level targeting      `isTargetFile` + `build`
+    (i')  the other rebuilders of image files: `withIsImport`, `imageWithoutImports`, `imageByDir`,
+          the image-file level of the type filter `typeFilterFile`; every file carries its
+          extension bits `XBits` (descriptor hash, syntax bit, unused dependencies, module, commit)
+    (ii)  module-level targeting      `isTargetFile` + `build`  (+ `compilerBits` / `buildX`)
     (iii) image <-> proto image       `toProto` / `toImage`
     (iv)  `stripBufExtensionField` over a wire-format model
 
   Not modelled: the compiler (a file is its path + declared import list), ProtoFileRef targeting
   (`protoFileTargetPath`, `includePackageFiles`: exclusive with --path and --exclude-path), import
-  cycles (a compile error; the DFS below simply terminates on them), encoders/decoders.
+  cycles (a compile error; the DFS below simply terminates on them), encoders/decoders,
+  `NewImage`'s check that the files of one module share one commit (every sub-list of an image
+  that passed it passes it; the harness only builds such images).
 -/
 namespace BufModel.ImagePaths
 open BufModel.Path
@@ -35,10 +40,33 @@ skip if seen, mark seen, walk the declared dependencies in order, append the fil
 `isImport := path ∉ nonImportPaths`.  They differ in how a dependency is looked up (the image's
 path map vs. the compiled workspace) — a parameter `look` here. -/
 
+structure ModName where
+  registry : Str
+  owner : Str
+  name : Str
+  deriving DecidableEq, Repr
+
+/-- What a `bufimage.ImageFile` carries NEXT to its path, import flag and declared dependencies
+    ("extension bits": they travel in `buf.alpha.image.v1.ImageFileExtension`, field 8042):
+    `FileDescriptorProto()` as an opaque `payload` (a hash of the descriptor without its name and
+    dependency list), `IsSyntaxUnspecified()`, `UnusedDependencyIndexes()`, `FullName()`,
+    `CommitID()` (dashless; `none` = `uuid.Nil`).  None of the filters below reads them; every one
+    of them REBUILDS image files and has to hand them on. -/
+structure XBits where
+  payload : Nat := 0
+  syntaxUnspecified : Bool := false
+  unusedDeps : List Nat := []
+  modName : Option ModName := none
+  commit : Option Str := none
+  deriving DecidableEq, Repr
+
 structure File where
   path : Str
   isImport : Bool
   deps : List Str
+  /-- the extension bits; `{}` where a caller does not care (source files handed to `build`: the
+      compiler's own computation of the bits is not modelled, `build` hands on what it is given). -/
+  ext : XBits := {}
   deriving DecidableEq, Repr
 
 abbrev Image := List File
@@ -195,6 +223,75 @@ def imageWithOnlyPaths (img : Image) (pths excl : List Str) (allowNotExist : Boo
 def filterImagePaths (img : Image) (pths excl : List Str) : Except Err Image :=
   if pths.isEmpty && excl.isEmpty then .ok img else imageWithOnlyPaths img pths excl true
 
+/-- byte order (= code-point order on valid UTF-8), `sort.Slice` in `GetTargetFileInfos`, `sort.Strings`. -/
+def strLt : Str → Str → Bool
+  | [], [] => false
+  | [], _ :: _ => true
+  | _ :: _, [] => false
+  | a :: as, b :: bs => if a < b then true else if b < a then false else strLt as bs
+
+def insertSorted (x : Str) : List Str → List Str
+  | [] => [x]
+  | y :: ys => if strLt y x then y :: insertSorted x ys else x :: y :: ys
+
+def sortStrs (l : List Str) : List Str := l.foldr insertSorted []
+
+/-! ## (i') the other functions that rebuild image files, and the extension bits
+
+`ImageFileWithIsImport` is the only place of the path filter that constructs an image file;
+`mark` above is its use in `addFileWithImports`.  `ImageWithoutImports` and `ImageByDir` reuse the
+file objects / the path filter.  `bufimageutil`'s type filter (`filterImageFile`) rebuilds a file
+whose descriptor changed with `NewImageFile(…, nil /* no unused dependencies */)`. -/
+
+/-- `bufimage.ImageFileWithIsImport` as coded: the same object when the flag already has the value,
+    otherwise `newImageFileNoValidate` with every other attribute handed on. -/
+def withIsImport (f : File) (imp : Bool) : File :=
+  if f.isImport = imp then f else { f with isImport := imp }
+
+/-- `bufimage.ImageWithoutImports` (`newImageNoValidate`: an empty result is NOT an error). -/
+def imageWithoutImports (img : Image) : Image := img.filter (fun f => !f.isImport)
+
+def dedupStrs : List Str → List Str
+  | [] => []
+  | x :: xs => if x ∈ xs then dedupStrs xs else x :: dedupStrs xs
+
+/-- `normalpath.ByDir` keys of the non-import paths, `sort.Strings(dirs)`. -/
+def dirsOf (img : Image) : List Str :=
+  sortStrs (dedupStrs ((img.filter (fun f => !f.isImport)).map fun f => dir f.path))
+
+/-- the (sorted) non-import paths of one directory. -/
+def pathsInDir (img : Image) (d : Str) : List Str :=
+  sortStrs (((img.filter (fun f => !f.isImport)).filter fun f => dir f.path = d).map (·.path))
+
+/-- `bufimage.ImageByDir`: one `ImageWithOnlyPaths(image, pathsOfDir, nil)` per directory. -/
+def imageByDir (img : Image) : Except Err (List Image) :=
+  (dirsOf img).mapM fun d => imageWithOnlyPaths img (pathsInDir img d) [] false
+
+/-- What the type filter leaves of a file's dependency list (`remapDependencies`): the declared
+    dependencies that are still `required` (= `closure.imports[file]`), in order, then the
+    required files that were only reachable through a public import, sorted. -/
+def remapDeps (required : List Str) (deps : List Str) : List Str :=
+  deps.filter (fun d => required.contains d) ++
+    sortStrs (dedupStrs (required.filter (fun r => !(deps.contains r))))
+
+/-- "Imports match and no public dependencies": the short cut of `remapDependencies`. -/
+def depsUnchanged (required : List Str) (deps : List Str) (hasPublic : Bool) : Bool :=
+  deps.all (fun d => required.contains d) && required.length == deps.length && !hasPublic
+
+/-- `bufimageutil.filterImageFile` on the image-file level (the descriptor rewrite itself is
+    property C12): `bodyChanged` = some message / enum / service / extension was dropped or
+    rewritten, `newPayload` = the hash of the rewritten descriptor.  An untouched file is handed on
+    AS IS; a rewritten one keeps flag, syntax bit, module and commit and gets NO unused
+    dependencies ("There are no unused dependencies": every kept dependency is required). -/
+def typeFilterFile (required : List Str) (bodyChanged hasPublic : Bool) (newPayload : Nat)
+    (f : File) : File :=
+  if !bodyChanged && depsUnchanged required f.deps hasPublic then f
+  else { f with deps := remapDeps required f.deps,
+                ext := { f.ext with payload := newPayload, unusedDeps := [] } }
+
+/-- The paths the unused-dependency indexes name (an index out of range names nothing). -/
+def unusedPaths (f : File) : List Str := f.ext.unusedDeps.filterMap (fun i => f.deps[i]?)
+
 /-! ## (ii) module-level targeting and the build closure -/
 
 structure Module where
@@ -220,19 +317,6 @@ def allFiles (ws : Workspace) : List File := ws.flatMap (·.files)
 
 /-- The compiler's import resolution: the file of that path in the module set. -/
 def lookup (ws : Workspace) (p : Str) : Option File := getFile (allFiles ws) p
-
-/-- byte order (= code-point order on valid UTF-8), `sort.Slice` in `GetTargetFileInfos`. -/
-def strLt : Str → Str → Bool
-  | [], [] => false
-  | [], _ :: _ => true
-  | _ :: _, [] => false
-  | a :: as, b :: bs => if a < b then true else if b < a then false else strLt as bs
-
-def insertSorted (x : Str) : List Str → List Str
-  | [] => [x]
-  | y :: ys => if strLt y x then y :: insertSorted x ys else x :: y :: ys
-
-def sortStrs (l : List Str) : List Str := l.foldr insertSorted []
 
 def targetFiles (ws : Workspace) : List File :=
   ws.flatMap (fun m => m.files.filter (fun f => isTargetFile m f.path))
@@ -261,12 +345,6 @@ def withTargeting (ws : Workspace) (pths excl : List Str) : Workspace :=
 /-! ## (iii) image file <-> proto image file -/
 
 abbrev Bytes := List Nat   -- every element < 256
-
-structure ModName where
-  registry : Str
-  owner : Str
-  name : Str
-  deriving DecidableEq, Repr
 
 /-- `bufimage.ImageFile` (the descriptor is `payload`, opaque, plus its declared dependencies and
     its unknown-field bytes). -/
@@ -387,6 +465,25 @@ def stripBufExtensionField (u : Bytes) : Bytes :=
   match stripLoop (u.length + 1) u [] with
   | some r => r
   | none => u
+
+/-! ### (ii') the bits the compiler attaches
+
+`build` above hands on the `ext` of the source files it is given: it does not model how
+`buildImage` computes the bits.  What it computes (build_image.go `getImageFilesRec`): syntax bit,
+module name and commit for every file, but `UnusedDependencyIndexes` ONLY for the files that
+are roots of the compile — an import never carries unused dependencies when it comes out of
+`BuildImage`.  With the source files' `ext` read as "the bits of that file when it is a root": -/
+
+/-- The bits `BuildImage` gives a file: those of the file as a root, without the unused
+    dependencies when the file is an import. -/
+def compilerBits (f : File) : File :=
+  { f with ext := { f.ext with unusedDeps := if f.isImport then [] else f.ext.unusedDeps } }
+
+/-- `bufimage.BuildImage` with the bits. -/
+def buildX (ws : Workspace) : Except Err Image := (build ws).map (List.map compilerBits)
+
+/-- Forget the unused-dependency indexes (for statements "equal up to unused dependencies"). -/
+def eraseUnused (f : File) : File := { f with ext := { f.ext with unusedDeps := [] } }
 
 /-! ### (iii) continued: the two conversions -/
 
